@@ -91,6 +91,9 @@ impl Source {
 
                 let mut file = BufWriter::new(file);
                 file.write_all(content.as_bytes())
+                    .map_err(|err| ResourceError::io_error(location, err))?;
+                // dropping the writer would ignore an error of the final flush
+                file.flush()
                     .map_err(|err| ResourceError::io_error(location, err))
             }
             Self::Memory(data) => {
